@@ -54,8 +54,9 @@ def matrix_case(draw, tier):
 
 def strategy(tier):
     net = st.tuples(NC.clean_network(maxN=14 if tier == "quick" else 40, minN=4, max_motifs=14 if tier == "quick" else 40),
-                    st.sampled_from([None, None, None, "", 0])).map(
-        lambda t: {"kind": "network", "net": t[0], "falsy_first_name": t[1]})
+                    st.sampled_from([None, None, None, "", 0]), st.sampled_from(["tuple", "tuple", "list", "ndarray"]),
+                    st.sampled_from([0, 0, 1, 2])).map(
+        lambda t: {"kind": "network", "net": {**t[0], "jd_type": t[2]}, "falsy_first_name": t[1], "name_prefix": t[3]})
     return st.one_of(jdd_case(tier), jdd_case(tier), matrix_case(tier), net)
 
 
@@ -185,14 +186,28 @@ def check_network(case):
     for jd in jds:
         want[jd] = want.get(jd, 0) + Fraction(1, N)
     cmp_dict(P, want, "network-jdd")
+    classes = {"network"}
+    if net.get("jd_type", "tuple") != "tuple":
+        classes.add("annotations_" + net["jd_type"])
+    T = len(names)
+    if case.get("name_prefix") and case["name_prefix"] < T:
+        # matrices of the first m topologies only (joint degree tuples keep their full length)
+        names = names[:case["name_prefix"]]
+        classes.add("subset_of_topologies_requested")
     ej = call("get_ejks", JointExcessJointDegree({TN.NETWORK: G, TN.EDGE_NAMES: list(names)}).get_ejks)
     rows = call("row-sums", JointExcessFromEjk.get_excess_joint_distributions, ej)
     fwd = call("forward", JointExcessfromJDD.get_joint_excess_distributions, P)
-    ref = forward_ref(want, len(names))
+    ref = forward_ref(want, T)
     for i, n in enumerate(names):
         cmp_dict(rows[n], ref[i], "cross-module-rows")
+    for i in range(T):
         cmp_dict(fwd[i], ref[i], "cross-module-forward")
-    return {"nontrivial": len(names) >= 2 and len(want) >= 3, "classes": ["network"]}
+    # the annotations are still the joint degrees they were (nothing was counted down in place)
+    from gcmpy import NetworkNames as NN
+    for v in range(N):
+        if tuple(int(x) for x in G.nodes[v][NN.JOINT_DEGREE]) != tuple(jds[v]):
+            raise Violation("input-mutated", f"vertex {v}: joint degree annotation {jds[v]} became {G.nodes[v][NN.JOINT_DEGREE]!r}")
+    return {"nontrivial": T >= 2 and len(want) >= 3, "classes": sorted(classes)}
 
 
 def check(case):
